@@ -181,6 +181,13 @@ where
         -> Result<(), ComposeError>
     {
         if let Some(ref mut a) = self.announcements.as_mut() {
+            // A link-local address can only accompany an IPv6 next hop.
+            if !matches!(
+                a.get_nexthop(),
+                NextHop::Unicast(IpAddr::V6(_)) | NextHop::Ipv6LL(..)
+            ) {
+                return Err(ComposeError::IllegalCombination);
+            }
             a.set_nexthop_ll_addr(addr);
         } else {
             let nexthop = NextHop::Ipv6LL(Ipv6Addr::from(0), addr);
